@@ -19,6 +19,7 @@ def handlers : List (List Sexp → Option Sexp) :=
     Driver.sugarHandle,
     Driver.heapHandle,
     Driver.infixHandle,
+    Driver.quotedHandle,
     Driver.namesHandle ]
 
 def dispatch (line : String) : String :=
